@@ -3,15 +3,18 @@ from . import treechecks
 
 
 def run(ctx):
-    return treechecks.run(ctx, "C08", ["MlsVerif.Props.C08", "MlsVerif.Props.C08Hash"], "C08",
+    return treechecks.run(ctx, "C08", ["MlsVerif.Props.C08", "MlsVerif.Props.C08Hash", "MlsVerif.Props.C08Sync"], "C08",
                           "an exported tree + GroupInfo failed an outside observer's full validation, the context tree hash differs from an independent from-scratch recomputation, "
                           "or a tree ends in a blank",
                           ["proved on the model: shape, no trailing blank, leftmost-blank placement, unmerged-list and uniqueness invariants for every reachable tree (reachable_trees_wf); "
                            "proved (Props.C08Hash): the incremental tree-hash cache (tree_hash.rs: resize, leaf loop, FIFO parent queue, right-to-left scan for missing entries) equals the from-scratch "
                            "RFC 9420 tree hash after every operation of every history, incl. shrink followed by re-growth (reachable_cache_coherent; machine-checked negative witness for a cache that "
                            "only grows); tie: `thashspec` rows compare the partition of (previous ++ current) cache entries by equal bytes with the partition by equal hash terms of the model; "
-                           "NOT proved: validity of parent-hash chains for all histories (the TreeSync theorem) — covered by the oracle only: every exported tree is validated by "
-                           "ExternalClient::observe_group and by every joiner"])
+                           "proved (Props.C08Sync, the TreeSync theorem): every reachable tree is parent-hash valid in the sense of RFC 9420 7.9.2 and accepted by the model of validate_parent_hashes "
+                           "(validate_iff_valid, original_hashes_spec, update_path_valid, sender_receiver_agree, original_hash_stable, batchEdit_preserves_valid, reachable_parent_hash_valid, "
+                           "reachable_accepted_by_joiner); side condition: path keys are fresh also w.r.t. the keys inside stale stored parent hashes (PhKeysBelow; machine-checked counterexample "
+                           "without it); tie: `phupd` rows (model of update_parent_hashes vs the real stored parent hashes, as partitions of equal bytes) and `phvalid` rows (structural witness "
+                           "condition on every member's real tree); the hash is a free symbol"])
 
 
 def replay(ctx, path):
